@@ -78,6 +78,7 @@ func dfsExecute(e Entry, pr dfsProgram, mi int, prefix []int) (trace, widths []i
 	clock = 0
 	// callback behaviour is selected per call through a goroutine-local slot
 	slots := make([]string, len(pr.gors))
+	var innerCall func(r int)
 	rankOf := map[uint64]int{}
 	var events [][]*cEvent = make([][]*cEvent, len(pr.gors))
 	curEv := make([]*cEvent, len(pr.gors))
@@ -97,7 +98,9 @@ func dfsExecute(e Entry, pr dfsProgram, mi int, prefix []int) (trace, widths []i
 				case "snap":
 					in.calls(x.Name).Call(nil)
 				case "callN":
-					p.call(n)
+					outer := curEv[r]
+					innerCall(r)
+					curEv[r] = outer
 				}
 			}
 			return zeros(x.Sig)
@@ -145,6 +148,7 @@ func dfsExecute(e Entry, pr dfsProgram, mi int, prefix []int) (trace, widths []i
 		}
 		events[r] = append(events[r], ev)
 	}
+	innerCall = func(r int) { call(r, n, "") }
 	fns := make([]func(), len(pr.gors))
 	for r, ops := range pr.gors {
 		r, ops := r, ops
